@@ -177,6 +177,23 @@ async def check(ctx, s, engine, req, sdl, notes):
         return
     if w_eng.anomalies:
         ctx.violation("resolver-anomaly", repr(w_eng.anomalies[:2]), case)
+        return
+    # the caller's variables object is an INPUT: sending the very same object again must be coerced the same way again
+    # (values written back into it by the first coercion would be coerced twice: in(in(x)) for a custom scalar, a
+    # stringified ID for an Int position of another operation, ...)
+    if any(isinstance(v, (list, dict)) for v in (req.variables or {}).values()):
+        _, w_again = X.make_worlds(s, req)
+        try:
+            resp2, _ = await X.run_engine(engine, s, req, w_again)
+        except Exception as e:  # noqa
+            ctx.violation("execute-raised", "second execution with the same variables object: %r" % e, case)
+            return
+        st.inc("evaluations")
+        st.inc("same_variables_object_sent_twice")
+        if X.jdump(resp2) != X.jdump(resp):
+            d2 = X.first_diff(resp2.get("data"), resp.get("data"))
+            ctx.violation("same-variables-object-coerced-differently-the-second-time", "notes=%s at %s second=%s first=%s" % (
+                notes, list(d2[0]) if d2 else "errors", X.jdump(d2[1] if d2 else resp2.get("errors"))[:150], X.jdump(d2[2] if d2 else resp.get("errors"))[:150]), case)
 
 
 async def run_case(ctx, rng, index):
